@@ -52,9 +52,8 @@ RULE = (
 )
 ASSUMPTIONS = [
     "lattice, not continuum: nothing is claimed between lattice points",
-    "direction grids are uniform and counter-clockwise: ascending (what as_frequency_direction_spectrum builds), with "
-    "shifted origins, or cyclically rolled so that the 360->0 wrap lies inside the array; descending (clockwise "
-    "ordered) grids are not exercised - on them all mem2 variants return the negated density (reported separately)",
+    "direction grids are uniform: ascending (what as_frequency_direction_spectrum builds), with shifted origins, "
+    "cyclically rolled so that the 360->0 wrap lies inside the array, or descending (clockwise ordered)",
     "moment arrays have a frequency axis (0-d inputs are outside the documented interface and are not exercised)",
     "numba prange is compiled with parallel=False (library setting _PARALLEL=False); thread schedules are not explored",
 ]
@@ -166,14 +165,14 @@ def grid(N, origin="0", order="ascending"):
         return np.roll(d, -1)
     if order == "plus180mod360":  # (grid + 180) % 360; for odd N a different set of directions
         return (d + 180.0) % 360.0
-    if order == "descending":  # supported, not in GRID_ORDERS (see ASSUMPTIONS)
+    if order == "descending":  # clockwise ordered
         return d[::-1].copy()
     raise ValueError(order)
 
 
 # uniform grids whose wrap lies in the interior of the array (all four variants must cope: the
 # property quantifies over "every uniform direction grid")
-GRID_ORDERS = ["roll_half", "roll_1", "roll_-1", "plus180mod360"]
+GRID_ORDERS = ["roll_half", "roll_1", "roll_-1", "plus180mod360", "descending"]
 
 
 # --------------------------------------------------------------------------------------------
@@ -509,7 +508,12 @@ def run_order(unit):
             continue  # e.g. (grid+180)%360 == roll_half for even N
         seen.append(direction)
         step = np.diff(np.concatenate([direction, direction[:1]])) % 360.0
-        if not (np.allclose(step, 360.0 / N) and np.any(np.diff(direction) < 0)):
+        if order == "descending":
+            # clockwise ordered uniform grid (every step is -360/N modulo 360); MEM2 negated its
+            # output on such grids before fix 7c3dd28
+            if not np.allclose(step, 360.0 - 360.0 / N):
+                raise AssertionError("not a uniform descending grid")
+        elif not (np.allclose(step, 360.0 / N) and np.any(np.diff(direction) < 0)):
             raise AssertionError("not a uniform grid with an interior wrap")
         keybase = {"variant": variant, "N": N, "grid_origin": "0", "grid_order": order}
         D, done = evaluate(variant, Q, direction, agg, keybase)
